@@ -3,7 +3,7 @@
 over the knftables fake)."""
 import copy
 
-from vlib import pipeline
+from vlib import core, pipeline
 
 
 def _apply_window(events, off):
@@ -35,15 +35,27 @@ def nontrivial(evs):
     return wrote and (junk or failed or edited)
 
 
-def select(behs, rnd):
-    """keep every behaviour that goes on after its first Apply (reconciliation of a converged table), and a
-    sample of the others (first Apply from a start kernel)"""
-    out = []
+def select(behs, rnd, quotas=(400, 40, 30, 30)):
+    """stratified choice among the generated behaviours: A = an out-of-band edit of a table that an earlier Apply
+    had converged (the driver appends refresh-interval + Apply); B = an Apply with an edit / failure inside it after
+    an earlier Apply; C = anything else that goes on after a first Apply; D = first Apply from a start kernel"""
+    cls = {"A": [], "B": [], "C": [], "D": []}
     for b in behs:
-        ops = [o.get("op") for o in b]
+        ops = [o.get("op") for o in b if o.get("op") != "end"]
         first = ops.index("apply") if "apply" in ops else None
-        if (first is not None and first < len(ops) - 1) or rnd.random() < 0.15:
-            out.append(b)
+        deep = first is not None and first < len(ops) - 1
+        last = [o for o in b if o.get("op") != "end"][-1]
+        if deep and last.get("op") == "edit":
+            cls["A"].append(b)
+        elif deep and last.get("op") == "apply" and (last.get("pre") != "none" or last.get("fw") or last.get("fr")):
+            cls["B"].append(b)
+        elif deep:
+            cls["C"].append(b)
+        else:
+            cls["D"].append(b)
+    out = []
+    for k, q in zip("ABCD", quotas):
+        out += cls[k] if len(cls[k]) <= q else rnd.sample(cls[k], q)
     return out
 
 
@@ -53,10 +65,9 @@ DESIGN = [{"module": "MC_RTable", "cfg": "MC_quick.cfg", "thorough_cfg": "MC_tho
 P = {
     "specdir": "reconcile_table",
     "design": DESIGN,
-    "gen": {"module": "Gen_RTable", "cfg": "Gen_cover.cfg", "thorough_cfg": "Gen_cover5.cfg", "workers": 1, "select": select,
-            "max": 200, "thorough_max": 4000, "timeout": 400, "thorough_timeout": 1500},
+    "gen": {"module": "Gen_RTable", "cfg": "Gen_cover.cfg", "thorough_cfg": "Gen_cover5.cfg", "workers": 1, "timeout": 400, "thorough_timeout": 1500},
     "driver": {"cmd": "rtable"},
-    "n_random": (80, 1500),
+    "n_random": (60, 600),
     "trace": {"module": "T_RTable", "cfg": "T_RTable.cfg", "timeout": 900, "heap": "4g"},
     "chunk": 60000,
     "signature": signature,
@@ -82,15 +93,25 @@ P = {
 
 
 def run(ctx):
-    pipeline.standard_check(ctx, P)
+    # one driver run / one validation for both TLC generators: the -simulate walks (2 kernel chains, rich
+    # menus) are generated first and appended to the selected cover behaviours
+    sim_behs = []
     if not ctx.replay:
-        # second generator: long random walks from TLC (-simulate) over 2 kernel chains and rich menus
-        P2 = dict(P)
-        P2["design"] = []
-        P2["gen"] = {"module": "Gen_RTable", "cfg": "Gen_sim.cfg", "simulate": {"num": 40, "depth": 20},
-                     "thorough_simulate": {"num": 1500, "depth": 20}, "timeout": 400, "thorough_timeout": 1500}
-        P2["n_random"] = (0, 0)
-        pipeline.standard_check(ctx, P2)
+        sim = {"num": 40, "depth": 20} if ctx.quick else {"num": 600, "depth": 20}
+        r = core.tlc(P["specdir"], "Gen_RTable", "Gen_sim.cfg", workers=1, simulate=sim, seed=ctx.seed,
+                     timeout=400 if ctx.quick else 1500, heap="4g")
+        if r.violated and r.violated != "deadlock":
+            raise core.HarnessError("generator spec problem (simulate): %s\n%s" % (r.violated, r.out[-2000:]))
+        sim_behs = r.behaviours
+        ctx.notes["simulate_behaviours_from_tlc"] = len(sim_behs)
+    def sel(behs, rnd):
+        keep = select(behs, rnd) if ctx.quick else select(behs, rnd, (1200, 400, 200, 200))
+        ctx.notes["cover_behaviours_selected"] = len(keep)
+        return keep + sim_behs
+
+    Pq = dict(P)
+    Pq["gen"] = dict(P["gen"], select=sel, max=None, thorough_max=None)
+    pipeline.standard_check(ctx, Pq)
 
 
 def selftest(ctx):
